@@ -154,7 +154,8 @@ pub fn gen_session(seed: u64, run: u64, thorough: bool) -> Session {
     let root = scratch_root("C15", seed, run);
     let (tree, docs) = project_tree(&mut rng);
     let root_uri = format!("file://{root}");
-    let mut ops = preamble(Some(&root_uri));
+    let rich = rng.chance(1, 2);
+    let mut ops = crate::lsp::preamble_caps(Some(&root_uri), rich);
     let mut models: BTreeMap<String, DocModel> = BTreeMap::new();
     let mut next_id = 1i64;
     let tree_text = |rel: &str| tree.iter().find(|(p, _)| p == rel).map(|(_, t)| t.clone()).unwrap_or_default();
@@ -182,7 +183,7 @@ pub fn gen_session(seed: u64, run: u64, thorough: bool) -> Session {
     let mut closed: BTreeSet<String> = BTreeSet::new();
     for _ in 0..nbody {
         let uri = rng.pick(&all_uris).clone();
-        let choice = rng.below(18);
+        let choice = rng.below(20);
         match choice {
             0..=2 => {
                 // valid change
@@ -360,6 +361,21 @@ pub fn gen_session(seed: u64, run: u64, thorough: bool) -> Session {
                     ops.push(p);
                     next_id += 1;
                 }
+            }
+            17..=18 => {
+                // the editor reports file events: for files the server knows, files it has never
+                // heard of, things that are not files, names that mean something to the build tool
+                const NAMES: &[&str] = &[
+                    "manifest.toml", "gleam.toml", "src/b.gleam", "src/a.gleam", "src/never.gleam", "test/t.gleam", "README.md",
+                    "build/packages/packages.toml", "build/packages/dep/gleam.toml", "build/packages/dep/src/d.gleam", "src", "src/sub/x.gleam",
+                    "build/packages/dep/manifest.toml",
+                ];
+                let mut changes = Vec::new();
+                for _ in 0..rng.range(1, 3) {
+                    let u = if rng.chance(1, 10) { rng.pick(ODD_URIS).0.to_string() } else { uri_for(&root, *rng.pick(NAMES)) };
+                    changes.push((u, *rng.pick(&[1u32, 2, 3])));
+                }
+                ops.push(PlannedOp::tagged(Op::Watched { changes }, "didChangeWatchedFiles.assorted"));
             }
             13..=14 if disk_budget > 0 => {
                 disk_budget -= 1;
@@ -593,7 +609,16 @@ fn op_kinds(op: &Op, states: &BTreeMap<String, BTreeSet<Option<String>>>) -> Vec
         Op::Close { uri } => vec![format!("didClose.uri_{}", classify_uri(uri))],
         Op::Save { .. } => vec!["didSave".into()],
         Op::Cancel { .. } => vec!["cancelRequest".into()],
-        Op::Watched { .. } => vec!["didChangeWatchedFiles".into()],
+        Op::Watched { changes } => {
+            let mut v = vec!["didChangeWatchedFiles".to_string()];
+            for (u, _) in changes {
+                let k = format!("watched.{}", u.rsplit('/').next().unwrap_or(u));
+                if !v.contains(&k) {
+                    v.push(k);
+                }
+            }
+            v
+        }
         Op::Raw { msg } => {
             let method = msg.get("method").and_then(|m| m.as_str()).unwrap_or("");
             if msg.get("id").is_some() {
